@@ -106,7 +106,7 @@ def run(ctx, rec):
             if k % 2 == 0:
                 # the same design, every port first tied to something else and then re-connected
                 d2 = copy.deepcopy(d)
-                d2["rewire"] = "pref" if k % 4 == 0 else "signal"
+                d2["rewire"] = ["pref", "signal", "pref-one"][(k // 2) % 3]
                 rec.count("driver.rewired")
                 one(rec, label + " (re-connected)", d2, False)
     kd = list(spec.kernel_designs(depth, tier))
